@@ -19,6 +19,7 @@ from .. import core
 from ..core import Budget
 from ..drivers import Harness, canon_interp, strip_uuid
 
+UNIT_TIMEOUT = 900  # backstop against a hung unit only; thread-slice subtrees can take minutes on a loaded machine
 LEVEL = "model_checking"
 RULE = (
     "parent machine with one root-level event per actor operation: spawnChild with id / with id+systemId / anonymous, "
@@ -407,8 +408,14 @@ def units(tier: str) -> List[Any]:
     depth = 4 if tier == "quick" else 5
     core.install_logging()
     us: List[Any] = []
+    from . import c15_preempt as PP
+    from ..preempt import split
+
+    core.install_logging()
     for variant, (bq, bt) in PREEMPT.items():
-        us.append(("preempt", variant, bq if tier == "quick" else bt))
+        b = bq if tier == "quick" else bt
+        for root in split(PP, variant, b):
+            us.append(("preempt", variant, (b, root)))
     for engine in ENGINES:
         res = dict(states=0, transitions=0, executions=0, distinct=[], violations=[], samples=[], caps=[])
         seen: set = set()
@@ -423,7 +430,7 @@ def units(tier: str) -> List[Any]:
     return us
 
 
-PREEMPT = {"arm-cancel": (1, 2), "arm-rearm": (1, 2), "arm-rearm-cancel": (1, 1), "arm-cancel-arm": (1, 2)}
+PREEMPT = {"arm-cancel": (1, 2), "arm-rearm": (1, 2), "arm-rearm-cancel": (1, 1), "arm-cancel-arm": (1, 1)}
 
 
 def run_unit(unit):
@@ -433,7 +440,7 @@ def run_unit(unit):
         from . import c15_preempt as P
         from ..preempt import unit_result
 
-        return unit_result("C15", P, unit[1], unit[2], lambda v: f"caller ops {P.VARIANTS[v]} (10 ms apart) against the delayed-send threads of send id 'x'")
+        return unit_result("C15", P, unit[1], unit[2][0], lambda v: f"caller ops {P.VARIANTS[v]} (10 ms apart) against the delayed-send threads of send id 'x'", root=unit[2][1])
     _, engine, root, depth = unit
     res = dict(states=0, transitions=0, executions=0, distinct=[], violations=[], samples=[], caps=[f"depth {depth}"])
     seen: set = set()
